@@ -87,6 +87,79 @@ Definition of_type (t : ty) (v : value) : Prop :=
   | _, _ => False
   end.
 
+(* ---------- one table name over time: the column type used for coercion comes from the schema cache ----------
+   getColumnInfo caches the column list per (user, dsn, table, showRowID): the write handlers (InsertRows, UpdateRows) use
+   the showRowID=false entry, ReadRows the showRowID=true entry.  TableCreate and DeleteTable purge the schema cache.
+   purge_all = true is the code (caches.Purge(SchemaCache)); false models an eviction of the write entry only. *)
+Record tstate := mkT {
+  actual : option ty;      (* the column type of the table that exists now *)
+  held : option cell;      (* the cell of its row *)
+  cw : option ty;          (* cached column type used by the write handlers *)
+  cr : option ty           (* cached column type used by ReadRows *)
+}.
+Inductive top := TCreate (t : ty) | TDrop | TWrite (v : value) | TRead | TEvictW | TEvictR.
+
+Definition tstep (purge_all : bool) (s : tstate) (o : top) : tstate * option (res value) :=
+  match o with
+  | TCreate t =>
+      match actual s with
+      | Some _ => (s, None)                                        (* table exists: error, nothing changes *)
+      | None => (mkT (Some t) None None (if purge_all then None else cr s), None)
+      end
+  | TDrop =>
+      match actual s with
+      | Some _ => (mkT None None None (if purge_all then None else cr s), None)
+      | None => (s, None)
+      end
+  | TWrite v =>
+      match actual s with
+      | None => (s, None)
+      | Some t =>
+          let tw := match cw s with Some c => c | None => t end in
+          (mkT (actual s) (match coerce_store true tw v with Ok c => Some c | Rejected => held s end) (Some tw) (cr s), None)
+      end
+  | TRead =>
+      match actual s with
+      | None => (s, None)
+      | Some t =>
+          let tr := match cr s with Some c => c | None => t end in
+          (mkT (actual s) (held s) (cw s) (Some tr),
+           Some (match held s with Some c => read tr c | None => Rejected end))
+      end
+  | TEvictW => (mkT (actual s) (held s) None (cr s), None)
+  | TEvictR => (mkT (actual s) (held s) (cw s) None, None)
+  end.
+Definition tinit : tstate := mkT None None None None.
+Definition trun (purge_all : bool) (h : list top) : tstate := fold_left (fun s o => fst (tstep purge_all s o)) h tinit.
+
+Fixpoint ns_eqb (a b : list N) : bool :=
+  match a, b with
+  | [], [] => true
+  | x :: a', y :: b' => (x =? y)%N && ns_eqb a' b'
+  | _, _ => false
+  end.
+Definition value_eqb (a b : value) : bool :=
+  match a, b with
+  | VInt x, VInt y => x =? y
+  | VBool x, VBool y => Bool.eqb x y
+  | VStr x, VStr y => ns_eqb x y
+  | VTs s n, VTs s' n' => (s =? s') && (n =? n')
+  | _, _ => false
+  end.
+(* per TRead of a history: 1 when it returns the value written last, else 0 *)
+Fixpoint chain_reads (purge_all : bool) (s : tstate) (last : option value) (h : list top) : list Z :=
+  match h with
+  | [] => []
+  | o :: r =>
+      let (s', out) := tstep purge_all s o in
+      let last' := match o with TWrite v => Some v | TCreate _ | TDrop => None | _ => last end in
+      match out, last with
+      | Some (Ok v), Some w => (if value_eqb v w then 1 else 0) :: chain_reads purge_all s' last' r
+      | Some _, _ => 0 :: chain_reads purge_all s' last' r
+      | None, _ => chain_reads purge_all s' last' r
+      end
+  end.
+
 (* ---------- correspondence helpers *)
 Definition int_back (z : Z) : Z := to_int (f64 z).
 Fixpoint bad_ints (l : list (Z * Z)) (i : nat) : list nat :=
